@@ -51,6 +51,7 @@ let parse_ev toks =
   | ["release"] -> Release
   | ["back"; hx] -> Back (bytes_of_hex (if hx = "-" then "" else hx))
   | ["fault"] -> Fault
+  | ["failsend"] -> FailSend
   | _ -> failwith ("bad event: " ^ String.concat " " toks)
 
 let show_event (outs, nr) =
